@@ -1,5 +1,6 @@
 import Uft.Lemmas.FstackTop
 import Uft.Lemmas.FstackSim
+import Uft.Lemmas.FstackOff
 /- C07 — Analysis-time filters mean the same as record-time filters.
 
 Model: Uft/Model/Fstack.lean (utils/fstack.c: the look-ahead of get_task_ustack, fstack_entry /
@@ -216,5 +217,161 @@ theorem c07_time_boundary_witness :
     (runCalls { threshold := 10 } .pg (St.init { threshold := 10 }) (.cons (.node 1 100 110 .nil) .nil)).out =
       [{ time := 100, type := 0, depth := 0, addr := 1 }, { time := 110, type := 1, depth := 0, addr := 1 }] := by
   decide
+
+/-! ### finding F-C07-TRACEOFF-FLUSH — a trace_off trigger in a function that the filters reject
+
+`mcount_entry_filter_check` switches tracing off at the TRACE_OFF update; the ENTRY records of the open callers are
+written lazily, and before the repair the flush for "tracing goes off" sat only in `mcount_entry_filter_record`,
+which a rejected function (depth budget used up, size filter, …) never reaches: the callers were lost from the
+record-time trace, while replaying the unfiltered recording with the same options shows them.  Repaired
+(`Cfg.f7fixed`, the default): `record_trace_data` for the innermost caller at the TRACE_OFF update. -/
+
+/-- the forest `main{ a{ b{ c{ d }}} x{ y } a{ b{ c{ d }}} }` (main = 0, a = 1, b = 2, c = 3, d = 4, x = 5, y = 6) -/
+def onoffForest : Calls :=
+  .cons (.node 0 1010 1220
+    (.cons (.node 1 1020 1090 (.cons (.node 2 1030 1080 (.cons (.node 3 1040 1070 (.cons (.node 4 1050 1060 .nil) .nil)) .nil)) .nil))
+    (.cons (.node 5 1100 1130 (.cons (.node 6 1110 1120 .nil) .nil))
+    (.cons (.node 1 1140 1210 (.cons (.node 2 1150 1200 (.cons (.node 3 1160 1190 (.cons (.node 4 1170 1180 .nil) .nil)) .nil)) .nil))
+     .nil)))) .nil
+
+/-- `-D 3 -T c@trace_off -T x@trace_on` -/
+def onoffCfg (fixed : Bool) : Cfg :=
+  { depthOpt := 3, f7fixed := fixed,
+    trig := fun f => if f = 3 then { traceOff := true } else if f = 5 then { traceOn := true } else {} }
+
+/-- **The lazy writer's invariant** holds in every state the hooks can reach, for every option set, trigger table,
+    hook family and call history (also across trace_on / trace_off, `finish`, --max-stack overflow): below a frame
+    whose ENTRY record is written every recordable frame is written, and the calls on the shadow stack carry no
+    exit time.  Each hook keeps it … -/
+theorem c07_lazy_writer_invariant_step (cfg : Cfg) (k : Kind) (s : St) (f t : Nat) (h : Flush.Inv s) :
+    Flush.Inv (entry cfg k s f t).1 ∧ Flush.Inv (exit cfg s t) :=
+  ⟨Flush.inv_entry cfg k s f t h, Flush.inv_exit cfg s t h⟩
+
+/-- … so it holds after every forest of calls from the initial state. -/
+theorem c07_lazy_writer_invariant (cfg : Cfg) (k : Kind) (cs : Calls) :
+    Flush.Inv (runCalls cfg k (St.init cfg) cs) :=
+  Flush.inv_runCalls cfg k cs _ (Flush.inv_init cfg)
+
+/-- **A trace_off trigger also flushes when its function is rejected** (repaired code, `f7fixed`; regular
+    build; -pg / -mfentry and -finstrument-functions).  For every option set and trigger table, every state of the
+    thread that satisfies the lazy writer's invariant (every reachable state, `c07_lazy_writer_invariant`) — i.e.
+    for every shadow stack — and every function `f` whose trace_off trigger is reached (room on the shadow stack,
+    not inside a -N region, not rejected by opt-in mode / -L before the trigger actions run) while tracing is on:
+    whatever the filters decide about `f` itself (`.out`: depth budget used up — the case the code before the
+    repair lost — or `.in_`), the entry hook writes exactly the ENTRY records of *all* open callers that are
+    recordable (not NORECORD, not DISABLED) and not yet written, outermost first (`owed`), and nothing else; every
+    recordable caller is written afterwards; tracing is off. -/
+theorem c07_traceoff_in_rejected_flushes (cfg : Cfg) (hfix : cfg.f7fixed = true) (hfast : cfg.fast = false)
+    (k : Kind) (s : St) (hinv : Flush.Inv s) (f t0 : Nat)
+    (hidx : s.idx < cfg.maxStack) (hout : s.filt.outCount = 0)
+    (hearly : earlyOut cfg (cfg.trig f) (saveFilt s.filt) = false)
+    (hoff : (cfg.trig f).traceOff = true) (hfin : (cfg.trig f).finish = false) (hen : s.enabled = true) :
+    (entry cfg k s f t0).1.out = s.out ++ Flush.owed s.frames ∧
+    (entry cfg k s f t0).1.enabled = false ∧
+    (∃ callers, Flush.AllWritten callers ∧ callers.map Frame.addr = s.frames.map Frame.addr ∧
+      ((entry cfg k s f t0).1.frames = callers ∨
+       ∃ F : Frame, F.written = false ∧ F.addr = f ∧ (entry cfg k s f t0).1.frames = F :: callers)) := by
+  obtain ⟨o, e, fr⟩ := Flush.entry_traceoff cfg hfix hfast k s f t0 hidx hout hearly hoff hfin hen hinv.2
+  refine ⟨by rw [o, Flush.pend_eq_owed _ hinv.1], e, mark s.frames, Flush.mark_allWritten _ hinv.1, ?_, fr⟩
+  exact Flush.mark_addr s.frames
+
+/-- the rejected case spelled out: `-D` budget used up at the trace_off function -/
+theorem c07_traceoff_rejected_by_depth (cfg : Cfg) (hfix : cfg.f7fixed = true) (hfast : cfg.fast = false)
+    (s : St) (hinv : Flush.Inv s) (f : Nat)
+    (hidx : s.idx < cfg.maxStack) (hout : s.filt.outCount = 0)
+    (hearly : earlyOut cfg (cfg.trig f) (saveFilt s.filt) = false)
+    (hoff : (cfg.trig f).traceOff = true) (hen : s.enabled = true)
+    (hdepth : (trigFilt (cfg.trig f) (matchFilt (cfg.trig f) (saveFilt s.filt))).depth ≥
+              depthLimit cfg (cfg.trig f) (saveFilt s.filt)) :
+    (entryFilterCheck cfg s f).1 = .out ∧
+    (entryFilterCheck cfg s f).2.1.out = s.out ++ Flush.owed s.frames ∧
+    Flush.AllWritten (entryFilterCheck cfg s f).2.1.frames := by
+  obtain ⟨v, flt, _, hv, hc⟩ := Flush.check_traceoff cfg hfix hfast s f hidx hout hearly hoff hen hinv.2
+  rw [hc]
+  exact ⟨hv.mpr hdepth, by simp [Flush.pend_eq_owed _ hinv.1], Flush.mark_allWritten _ hinv.1⟩
+
+/-- non-vacuity: the state after `main{ a{ b{` of the directed forest under `-D 3 -T c@trace_off -T x@trace_on`
+    meets the hypotheses at the entry of `c`, three ENTRY records are owed, and `c` is rejected by the depth -/
+example :
+    let cfg := onoffCfg true
+    let s := (entry cfg .pg (entry cfg .pg (entry cfg .pg (St.init cfg) 0 1010).1 1 1020).1 2 1030).1
+    s.idx < cfg.maxStack ∧ s.filt.outCount = 0 ∧ earlyOut cfg (cfg.trig 3) (saveFilt s.filt) = false ∧
+    (cfg.trig 3).traceOff = true ∧ (cfg.trig 3).finish = false ∧ s.enabled = true ∧
+    (entryFilterCheck cfg s 3).1 = .out ∧ (Flush.owed s.frames).length = 3 := by
+  decide
+
+/-- finding F-C07-TRACEOFF-FLUSH, the code before its repair (`f7fixed := false`): under
+    `record -D 3 -T c@trace_off -T x@trace_on` on `main{ a{ b{ c{ d }}} x{ y } a{ b{ c{ d }}} }` the trace_off function
+    `c` is beyond the depth limit, the pending ENTRY records of `a` and `b` are never written (both times): the
+    hooks write only main, x, y — while replaying the unfiltered recording with the same options shows
+    main a b x y a b.  Both hook families. -/
+theorem c07_prefix_traceoff_flush_witness :
+    (∀ k : Kind, (runCalls (onoffCfg false) k (St.init (onoffCfg false)) onoffForest).out =
+      [{ time := 1010, type := 0, depth := 0, addr := 0 }, { time := 1100, type := 0, depth := 1, addr := 5 },
+       { time := 1110, type := 0, depth := 2, addr := 6 }, { time := 1120, type := 1, depth := 2, addr := 6 },
+       { time := 1130, type := 1, depth := 1, addr := 5 }]) ∧
+    cmdOut (RCfg.ofRecord (onoffCfg false)) .replay (evCalls 0 onoffForest) =
+      [{ time := 1010, type := 0, depth := 0, addr := 0 }, { time := 1020, type := 0, depth := 1, addr := 1 },
+       { time := 1030, type := 0, depth := 2, addr := 2 }, { time := 1100, type := 0, depth := 1, addr := 5 },
+       { time := 1110, type := 0, depth := 2, addr := 6 }, { time := 1120, type := 1, depth := 2, addr := 6 },
+       { time := 1130, type := 1, depth := 1, addr := 5 }, { time := 1140, type := 0, depth := 1, addr := 1 },
+       { time := 1150, type := 0, depth := 2, addr := 2 }] := by
+  refine ⟨fun k => ?_, ?_⟩
+  · cases k <;> decide
+  · decide
+
+/-- … and with the repair the hooks write exactly what every analysis command shows for the unfiltered recording
+    under the same options (both hook families, all five commands), on this input and with the depth limit one
+    higher (`c` accepted) or lower (`b` and `c` rejected) -/
+theorem c07_record_eq_replay_traceoff_directed (k : Kind) (cmd : Cmd) :
+    (runCalls (onoffCfg true) k (St.init (onoffCfg true)) onoffForest).out =
+      cmdOut (RCfg.ofRecord (onoffCfg true)) cmd (evCalls 0 onoffForest) ∧
+    (runCalls { onoffCfg true with depthOpt := 4 } k (St.init { onoffCfg true with depthOpt := 4 }) onoffForest).out =
+      cmdOut (RCfg.ofRecord { onoffCfg true with depthOpt := 4 }) cmd (evCalls 0 onoffForest) ∧
+    (runCalls { onoffCfg true with depthOpt := 2 } k (St.init { onoffCfg true with depthOpt := 2 }) onoffForest).out =
+      cmdOut (RCfg.ofRecord { onoffCfg true with depthOpt := 2 }) cmd (evCalls 0 onoffForest) := by
+  cases k <;> cases cmd <;> decide
+
+/-- **Record time = replay time with trace_off triggers** (the extension of `c07_record_eq_replay` that the repair
+    of F-C07-TRACEOFF-FLUSH makes true).  For the repaired code (`f7fixed`, `f4fixed`, `s4fixed`), every table of
+    -F / -N entries with trace_off triggers on any functions that are not -N functions themselves — accepted,
+    beyond the -D limit, outside the -F regions or inside a -N region —, every -D, no -t and no trace_on trigger,
+    both hook families, every forest of properly nested calls within --max-stack: the records the hooks write equal
+    what every analysis command shows when the same options are applied to the unfiltered eager trace — the
+    documented selection up to the first trace_off trigger that is reached (`offCalls`), with the ENTRY records of
+    the calls still open at that point.  (With `f7fixed = false` this fails: `c07_prefix_traceoff_flush_witness`.
+    Outside the class — trace_on, -t, trace_off on a -N function — the two times implement the switch differently
+    by construction, see checks/c07.py `ctx.assumptions` (a)–(d).) -/
+theorem c07_record_eq_replay_traceoff (cfg : Cfg) (h : FNDoff cfg) (k : Kind) (cs : Calls) (n : Nat)
+    (hh : cs.height ≤ cfg.maxStack) (hn : Calls.allDurLe n cs) (cmd : Cmd) :
+    (runCalls cfg k (St.init cfg) cs).out = cmdOut (RCfg.ofRecord cfg) cmd (evCalls 0 cs) :=
+  record_eq_replay_off cfg h k cs n hh hn cmd
+
+/-- … and both are the documented selection up to the first trace_off trigger that is reached -/
+theorem c07_record_refines_spec_traceoff (cfg : Cfg) (h : FNDoff cfg) (k : Kind) (cs : Calls) (n : Nat)
+    (hh : cs.height ≤ cfg.maxStack) (hn : Calls.allDurLe n cs) :
+    (runCalls cfg k (St.init cfg) cs).out =
+      (offCalls (RCfg.ofRecord cfg) (Env.init (RCfg.ofRecord cfg)) 0 cs).1 :=
+  record_out_off cfg h k cs hh (ended_of_allDurLe cs n hn)
+
+/-- non-vacuity: `-D 3 -T c@trace_off` (c beyond the depth limit) and `-F a -N d -D 2 -T b@trace_off` on the directed
+    forest meet the hypotheses of `c07_record_eq_replay_traceoff`, and tracing does go off -/
+example :
+    let cfg1 : Cfg := { depthOpt := 3, trig := fun f => { traceOff := f == 3 } }
+    let cfg2 : Cfg := { depthOpt := 2, optIn := true,
+                        trig := fun f => { filter := if f = 1 then some true else if f = 4 then some false else none,
+                                           traceOff := f == 2 } }
+    FNDoff cfg1 ∧ FNDoff cfg2 ∧ onoffForest.height ≤ cfg1.maxStack ∧ Calls.allDurLe 1000 onoffForest ∧
+    (offCalls (RCfg.ofRecord cfg1) (Env.init (RCfg.ofRecord cfg1)) 0 onoffForest).2 = false ∧
+    (offCalls (RCfg.ofRecord cfg1) (Env.init (RCfg.ofRecord cfg1)) 0 onoffForest).1.length = 3 := by
+  refine ⟨⟨rfl, rfl, rfl, rfl, rfl, rfl, rfl, rfl, rfl, fun f => ?_, fun f hf => ?_⟩,
+    ⟨rfl, rfl, rfl, rfl, rfl, rfl, rfl, rfl, rfl, fun f => ?_, fun f hf => ?_⟩, by decide, ?_, by decide, by decide⟩
+  · rfl
+  · simp
+  · rfl
+  · simp only [beq_iff_eq] at hf
+    subst hf
+    decide
+  · simp [onoffForest, Calls.allDurLe, Call.nestOK, Call.dur]
 
 end Uft.C07
